@@ -102,8 +102,9 @@ type wqOut struct {
 type wqState struct {
 	cs      int
 	io      bool
-	mustErr bool    // a captured suspension was replaced by an error: the method has to end with an error
-	resume  *a.Node // non-nil: between yielding a captured suspension and re-entering the suspended callee
+	mustErr bool          // a captured suspension was replaced by an error: the method has to end with an error
+	resume  *a.Node       // non-nil: between yielding a captured suspension and re-entering the suspended callee
+	facts   map[t.ID]bool // known values of bool fields of this (only refined inside public methods)
 	env     map[t.ID]wqAtom
 }
 
@@ -119,6 +120,14 @@ func (s wqState) key() string {
 		x := s.env[t.ID(id)]
 		fmt.Fprintf(&b, "|%d=%s@%p", id, x.text, x.origin)
 	}
+	ids = ids[:0]
+	for id := range s.facts {
+		ids = append(ids, int(id))
+	}
+	sort.Ints(ids)
+	for _, id := range ids {
+		fmt.Fprintf(&b, "|f%d=%v", id, s.facts[t.ID(id)])
+	}
 	return b.String()
 }
 
@@ -129,6 +138,31 @@ func (s wqState) with(id t.ID, x wqAtom) wqState {
 	}
 	env[id] = x
 	s.env = env
+	return s
+}
+
+// withFact sets (known=true) or forgets (known=false) the value of a bool field of this.
+func (s wqState) withFact(id t.ID, known, val bool) wqState {
+	if _, has := s.facts[id]; !has && !known {
+		return s
+	}
+	facts := make(map[t.ID]bool, len(s.facts)+1)
+	for k, v := range s.facts {
+		facts[k] = v
+	}
+	if known {
+		facts[id] = val
+	} else {
+		delete(facts, id)
+	}
+	s.facts = facts
+	return s
+}
+
+func (s wqState) forget(w map[t.ID]bool) wqState {
+	for id := range w {
+		s = s.withFact(id, false, false)
+	}
 	return s
 }
 
@@ -172,10 +206,12 @@ type wqAn struct {
 	generic  map[t.ID]map[wqOut]bool
 	inprog   map[t.ID]bool
 	undec    map[string]bool
-	undecBy  map[t.ID][]string        // per method of this: engine messages (deduplicated)
-	guards   map[*a.Node]bool         // conditions that read the field
-	updates  map[*a.Node]bool         // assignments to the field
-	trans    map[[2]int]map[t.ID]bool // (old value, new value) of every assignment met on an analysed path -> methods
+	undecBy  map[t.ID][]string              // per method of this: engine messages (deduplicated)
+	guards   map[*a.Node]bool               // conditions that read the field
+	updates  map[*a.Node]bool               // assignments to the field
+	trans    map[[2]int]map[t.ID]bool       // (old value, new value) of every assignment met on an analysed path -> methods
+	wr       map[t.ID]map[int]map[t.ID]bool // method, entry value -> fields of this assigned on some analysed path (callees included)
+	wrGen    map[t.ID]map[t.ID]bool         // the same for methods that never touch the tracked field
 	steps    int
 }
 
@@ -184,7 +220,8 @@ const wqMaxSteps = 40_000_000
 func newWqAn(p *WPkg, recv t.ID, fieldName string) *wqAn {
 	an := &wqAn{p: p, recv: recv, funcs: map[t.ID]*a.Func{}, alts: map[t.ID][]t.ID{}, relevant: map[t.ID]bool{},
 		memo: map[t.ID]map[int]map[wqOut]bool{}, generic: map[t.ID]map[wqOut]bool{}, inprog: map[t.ID]bool{},
-		undec: map[string]bool{}, undecBy: map[t.ID][]string{}, guards: map[*a.Node]bool{}, updates: map[*a.Node]bool{}, trans: map[[2]int]map[t.ID]bool{}}
+		undec: map[string]bool{}, undecBy: map[t.ID][]string{}, guards: map[*a.Node]bool{}, updates: map[*a.Node]bool{}, trans: map[[2]int]map[t.ID]bool{},
+		wr: map[t.ID]map[int]map[t.ID]bool{}, wrGen: map[t.ID]map[t.ID]bool{}}
 	an.field = p.TM.ByName(fieldName)
 	for _, f := range p.Funcs {
 		if f.Receiver()[0] == 0 && f.Receiver()[1] == recv {
@@ -372,6 +409,20 @@ func (an *wqAn) outcomes(id t.ID, v int) map[wqOut]bool {
 	return out
 }
 
+// writesOf: fields of this that a call of method id with the field == v may assign. Call outcomes(id, v) first.
+func (an *wqAn) writesOf(id t.ID, v int) map[t.ID]bool {
+	out := map[t.ID]bool{}
+	for _, x := range append([]t.ID{id}, an.alts[id]...) {
+		for k := range an.wrGen[x] {
+			out[k] = true
+		}
+		for k := range an.wr[x][v] {
+			out[k] = true
+		}
+	}
+	return out
+}
+
 func (an *wqAn) outcomes1(id t.ID, v int) map[wqOut]bool {
 	f := an.funcs[id]
 	if f == nil {
@@ -386,7 +437,7 @@ func (an *wqAn) outcomes1(id t.ID, v int) map[wqOut]bool {
 		g, ok := an.generic[id]
 		if !ok {
 			an.inprog[id] = true
-			g = an.run(f, 0)
+			g, an.wrGen[id] = an.run(f, 0)
 			an.inprog[id] = false
 			an.generic[id] = g
 		}
@@ -404,22 +455,28 @@ func (an *wqAn) outcomes1(id t.ID, v int) map[wqOut]bool {
 		return m
 	}
 	an.inprog[id] = true
-	m := an.run(f, v)
+	m, w := an.run(f, v)
 	an.inprog[id] = false
 	an.memo[id][v] = m
+	if an.wr[id] == nil {
+		an.wr[id] = map[int]map[t.ID]bool{}
+	}
+	an.wr[id][v] = w
 	return m
 }
 
 type wqRun struct {
-	an   *wqAn
-	f    *a.Func
-	outs map[wqOut]bool
-	brk  map[a.Loop]wqSet
-	cnt  map[a.Loop]wqSet
+	an     *wqAn
+	f      *a.Func
+	track  bool // refine facts about bool fields of this (public methods only: keeps the state space of the big private bodies small)
+	writes map[t.ID]bool
+	outs   map[wqOut]bool
+	brk    map[a.Loop]wqSet
+	cnt    map[a.Loop]wqSet
 }
 
-func (an *wqAn) run(f *a.Func, v int) map[wqOut]bool {
-	r := &wqRun{an: an, f: f, outs: map[wqOut]bool{}, brk: map[a.Loop]wqSet{}, cnt: map[a.Loop]wqSet{}}
+func (an *wqAn) run(f *a.Func, v int) (map[wqOut]bool, map[t.ID]bool) {
+	r := &wqRun{an: an, f: f, track: f.Public(), writes: map[t.ID]bool{}, outs: map[wqOut]bool{}, brk: map[a.Loop]wqSet{}, cnt: map[a.Loop]wqSet{}}
 	S := wqSet{}
 	S.add(wqState{cs: v})
 	end := r.exec(f.Body(), S)
@@ -431,7 +488,7 @@ func (an *wqAn) run(f *a.Func, v int) map[wqOut]bool {
 		}
 		r.ret(s, wqOK, false)
 	}
-	return r.outs
+	return r.outs, r.writes
 }
 
 func (r *wqRun) emit(s wqState, class string) {
@@ -612,6 +669,22 @@ func (r *wqRun) loop(l a.Loop, cond *a.Expr, body []*a.Node, S wqSet) wqSet {
 
 func (r *wqRun) split(cond *a.Expr, S wqSet) (T, F wqSet) {
 	T, F = wqSet{}, wqSet{}
+	// a bare `this.f` / `not this.f` on a bool field: remember which way the path went
+	if fld, neg := wqBoolField(cond); fld != 0 && r.track {
+		for k, s := range S {
+			if v, ok := s.facts[fld]; ok {
+				if v != neg {
+					T[k] = s
+				} else {
+					F[k] = s
+				}
+				continue
+			}
+			T.add(s.withFact(fld, true, !neg))
+			F.add(s.withFact(fld, true, neg))
+		}
+		return
+	}
 	for k, s := range S {
 		switch r.evalTri(cond, s) {
 		case 1:
@@ -626,10 +699,32 @@ func (r *wqRun) split(cond *a.Expr, S wqSet) (T, F wqSet) {
 	return
 }
 
+// wqBoolField: e is `this.f` or `not this.f` with f a bool field.
+func wqBoolField(e *a.Expr) (fld t.ID, neg bool) {
+	if e == nil {
+		return 0, false
+	}
+	if e.Operator() == t.IDXUnaryNot {
+		e, neg = e.RHS().AsExpr(), true
+	}
+	if f := e.IsThisDotFoo(); f != 0 && e.MType() != nil && e.MType().IsBool() {
+		return f, neg
+	}
+	return 0, false
+}
+
 // evalTri: 1 true, 0 false, -1 unknown.
 func (r *wqRun) evalTri(e *a.Expr, s wqState) int {
 	if e == nil {
 		return -1
+	}
+	if f := e.IsThisDotFoo(); f != 0 {
+		if v, ok := s.facts[f]; ok {
+			if v {
+				return 1
+			}
+			return 0
+		}
 	}
 	if cv := e.ConstValue(); cv != nil && e.MType() != nil && e.MType().IsBool() {
 		if cv.Sign() != 0 {
@@ -865,6 +960,22 @@ func (r *wqRun) atomsOf(e *a.Expr, s wqState) []wqAtom {
 	return wqUnknownAtoms()
 }
 
+// wqThisRoot: the field f when e is `this.f`, `this.f[i]`, `this.f.g`, `this.f[i .. j]`, …; else 0.
+func wqThisRoot(e *a.Expr) t.ID {
+	for e != nil {
+		if f := e.IsThisDotFoo(); f != 0 {
+			return f
+		}
+		switch e.Operator() {
+		case a.ExprOperatorIndex, a.ExprOperatorSlice, a.ExprOperatorSelector:
+			e = e.LHS().AsExpr()
+		default:
+			return 0
+		}
+	}
+	return 0
+}
+
 func isStatusLocal(e *a.Expr) bool {
 	return e != nil && e.Operator() == 0 && e.MType() != nil && e.MType().IsStatus()
 }
@@ -912,6 +1023,19 @@ func (r *wqRun) assign(n *a.Node, S wqSet) wqSet {
 			out.add(s)
 		}
 		return out
+	}
+	if root := wqThisRoot(lhs); root != 0 {
+		r.writes[root] = true
+		out := wqSet{}
+		direct := lhs.IsThisDotFoo() == root
+		for _, s := range S.sorted() {
+			if cv := rhs.ConstValue(); direct && r.track && op == t.IDEq && cv != nil && rhs.MType() != nil && rhs.MType().IsBool() {
+				out.add(s.withFact(root, true, cv.Sign() != 0))
+			} else {
+				out.add(s.withFact(root, false, false))
+			}
+		}
+		S = out
 	}
 	if rhs != nil && rhs.Operator() == a.ExprOperatorCall {
 		dest := t.ID(0)
@@ -963,8 +1087,13 @@ func (r *wqRun) call(stmt *a.Node, e *a.Expr, dest t.ID, op t.ID, S wqSet) wqSet
 				an.undecided(r.f, "after yielding a captured suspension another method of this is called before the suspended callee is re-entered")
 				continue
 			}
-			for o := range an.outcomes(callee, s.cs) {
-				ns := s
+			outs := an.outcomes(callee, s.cs)
+			w := an.writesOf(callee, s.cs)
+			for k := range w {
+				r.writes[k] = true
+			}
+			for o := range outs {
+				ns := s.forget(w)
 				ns.cs = o.exit
 				ns.io = s.io || o.io
 				x := wqAtomOfClass(o.class)
